@@ -54,16 +54,25 @@ def overlapping_footprints(res, base):
     return False
 
 
-def gen_case(rng):
-    scn = P.gen_scenario(rng)
+def gen_case(rng, force_twin=False):
+    scn = P.gen_scenario(rng, nrepos=1) if force_twin else P.gen_scenario(rng)
     # sometimes make two indices of one directory byte-identical (shared by-hash alias, F11)
-    twin = rng.random() < 0.25
+    twin = force_twin or rng.random() < 0.25
     if twin:
+        # byte-identical sibling indices (Contents-<arch> of one component, e.g. all empty) share ONE by-hash file
         for r in scn.repos:
+            r["config"]["byhash"] = "force"
             for cn, c in r["version"]["codenames"].items():
+                c["byhash"] = True
                 for comp, cc in c["components"].items():
                     cc["contents"] = True
                     cc["contents_identical"] = True
+                    cc["arches"].setdefault("amd64", [])
+                    cc["arches"].setdefault("i386", [])
+                if cn in r["config"]["codenames"]:
+                    for comp in r["config"]["codenames"][cn]:
+                        r["config"]["codenames"][cn][comp]["arches"] = ["amd64", "i386"]
+        scn.nthreads = max(scn.nthreads, 2)
     return scn, {"seed": rng.getrandbits(32), "twin": twin}
 
 
@@ -158,6 +167,11 @@ def run(rep: C.Report):
         for i in range(n):
             scn, case = gen_case(rng)
             found |= run_case(rep, scn, case, sb, f"r{i}", no, ns)
+        # byte-identical sibling indices: many completion orders of small scenarios
+        trng = random.Random(rep.seed + 1515)
+        for i in range(16 if rep.tier == "quick" else 300):
+            scn, case = gen_case(trng, force_twin=True)
+            found |= run_case(rep, scn, case, sb, f"t{i}", 8, 0)
     finally:
         shutil.rmtree(sb, ignore_errors=True)
     C.proof_verdict(rep, found)
